@@ -444,7 +444,11 @@ var stopSpinners int32
 
 // installEinvalLogFilter: in every thread, seccomp(SECCOMP_SET_MODE_FILTER, flags, ...) with the log bit in flags is
 // answered EINVAL (a kernel before 4.14 or a sandbox that does not know the flag); everything else is allowed.
-func installEinvalLogFilter() string {
+func installEinvalLogFilter() string { return installEinvalLog(true) }
+
+// installEinvalLog: on all threads, seccomp(SET_MODE_FILTER) with the LOG flag is answered EINVAL (what a kernel before
+// 4.14 does). withNNP=false: installed as root without touching no_new_privs.
+func installEinvalLog(withNNP bool) string {
 	res := make(chan string, 1)
 	go func() {
 		runtime.LockOSThread()
@@ -464,9 +468,11 @@ func installEinvalLogFilter() string {
 			{Code: 0x06, K: 0x7fff0000},       // ret ALLOW
 		}
 		fp := syscall.SockFprog{Len: uint16(len(prog)), Filter: &prog[0]}
-		if _, _, e := syscall.RawSyscall6(syscall.SYS_PRCTL, 38, 1, 0, 0, 0, 0); e != 0 {
-			res <- "prctl: " + e.Error()
-			return
+		if withNNP {
+			if _, _, e := syscall.RawSyscall6(syscall.SYS_PRCTL, 38, 1, 0, 0, 0, 0); e != 0 {
+				res <- "prctl: " + e.Error()
+				return
+			}
 		}
 		if r, _, e := syscall.RawSyscall(uintptr(nr), 1, 1, uintptr(unsafe.Pointer(&fp))); e != 0 || r != 0 {
 			res <- fmt.Sprintf("seccomp: ret %d errno %v", r, e)
@@ -644,6 +650,20 @@ func run(job *kjob.Job) {
 			}
 		case "outer-einval-log":
 			emit(kjob.Event{Step: i, Ev: "outer-einval-log", Err: installEinvalLogFilter()})
+		case "outer-einval-log-nonnp":
+			emit(kjob.Event{Step: i, Ev: "outer-einval-log", Err: installEinvalLog(false)})
+		case "churn":
+			// goroutines that stop the world over and over: every running goroutine is descheduled each time and resumes on
+			// whatever thread picks it up
+			for k := 0; k < st.N; k++ {
+				go func() {
+					var ms runtime.MemStats
+					for atomic.LoadInt32(&stopSpinners) == 0 {
+						runtime.ReadMemStats(&ms)
+					}
+				}()
+			}
+			emit(kjob.Event{Step: i, Ev: "churn", K: st.N})
 		case "outer-enosys":
 			// fault injection: from now on seccomp(2) fails with ENOSYS in every thread (an outer
 			// sandbox or an old kernel), everything else is allowed
